@@ -120,6 +120,8 @@ struct Gen<'r> {
     s_win: u16,
     s_ws: Option<u8>,
     conn_budget: usize,
+    /// receive buffer above 64 KiB: window scaling in use, probes around the unscaled SYN window
+    bigwin: bool,
     stats: BTreeMap<String, u64>,
 }
 
@@ -251,6 +253,37 @@ impl<'r> Gen<'r> {
             self.ev(format!("poll t={} b=-", self.t));
         }
     }
+    /// one segment around the window the SYN / SYN|ACK put on the wire (unscaled field, at most 65535)
+    /// and around the buffer size, sent before the socket has emitted anything else
+    fn edge_probe(&mut self) {
+        let sh = match (self.s_ws, self.p_ws) {
+            (Some(s), Some(_)) => s.min(14) as i64,
+            _ => 0,
+        };
+        let rx = self.cfg.rx as i64;
+        let offs = [
+            65534i64, 65535, 65536, 65537, 70000,
+            ((65535 >> sh) << sh) - 1, (65535 >> sh) << sh, ((65535 >> sh) << sh) + 1,
+            rx - 1, rx, rx + 1, (rx >> sh) << sh,
+        ];
+        let off = *self.rng.pick(&offs);
+        let seq = wadd(self.p_isn, 1 + off);
+        let w = self.p_win;
+        let ack = self.s_iss.map(|i| wadd(i, 1));
+        match self.rng.below(5) {
+            0 | 1 => {
+                let a = if self.rng.chance(1, 2) { ack } else { None };
+                self.seg(seq, a, "R", w, 0, "0".into(), Gen::plain_opts());
+            }
+            2 | 3 => {
+                let len = *self.rng.pick(&[1usize, 10, 100]);
+                self.seg(seq, ack, "", w, len, off.to_string(), Gen::plain_opts());
+            }
+            _ => {
+                self.seg(seq, ack, "", w, 0, "0".into(), Gen::plain_opts());
+            }
+        }
+    }
     /// data in flight, a partial ACK that closes the window (probe timer armed with octets still
     /// unacknowledged), [a probe, possibly refused], then the window reopens
     fn zero_window_reopen(&mut self) {
@@ -310,6 +343,13 @@ impl<'r> Gen<'r> {
         self.p_ws = *self.rng.pick(&[None, None, Some(0u8), Some(2), Some(7), Some(14), Some(15), Some(200)]);
         self.p_sackp = self.rng.chance(1, 2);
         self.p_ts = self.rng.chance(1, 2);
+        if self.bigwin {
+            // peers that do (2 of 3) and do not offer window scaling; SACK often, so that accepted
+            // out-of-order data shows up in the SACK blocks
+            self.p_ws = if self.rng.chance(2, 3) { Some(*self.rng.pick(&[0u8, 2, 7, 14])) } else { None };
+            self.p_sackp = self.rng.chance(3, 4);
+            self.p_win = *self.rng.pick(&[1000u16, 16384, 65535]);
+        }
         self.s_iss = None;
         self.s_nxt = None;
         self.s_ack = None;
@@ -343,6 +383,9 @@ impl<'r> Gen<'r> {
                 self.seg(wadd(self.p_isn, 1), ack, "", w, 0, "0".into(), Gen::plain_opts());
             } else {
                 self.seg(self.p_isn, ack, "S", w, 0, "0".into(), &o);
+                if self.bigwin && self.rng.chance(3, 4) {
+                    self.edge_probe();
+                }
             }
             self.poll();
         } else if kind < 9 {
@@ -357,6 +400,14 @@ impl<'r> Gen<'r> {
             let len = if self.rng.chance(1, 10) { 5 } else { 0 };
             self.seg(self.p_isn, None, "S", w, len, "0".into(), &o);
             self.poll();
+            if self.bigwin {
+                if self.s_iss.is_none() {
+                    self.ev(format!("poll t={} b=-", self.t));
+                }
+                if self.rng.chance(3, 4) {
+                    self.edge_probe();
+                }
+            }
             if self.rng.chance(1, 8) {
                 return;
             }
@@ -743,8 +794,12 @@ fn gen_case(rng: &mut Rng, id: String, tier: &str, stats: &mut BTreeMap<String, 
             _ => *rng.pick(&big),
         }
     };
-    let rx = pick_cap(rng);
-    let tx = pick_cap(rng);
+    // one walk in eight: receive buffer above 64 KiB, so that the window-scale shift is not zero and the
+    // (unscaled, saturated) window of the SYN / SYN|ACK differs from the buffer size
+    let huge = [65536usize, 70000, 98304, 131072, 262144];
+    let bigwin = rng.chance(1, 8);
+    let rx = if bigwin { *rng.pick(&huge) } else { pick_cap(rng) };
+    let tx = if bigwin && rng.chance(1, 3) { *rng.pick(&huge) } else { pick_cap(rng) };
     let seed = if rng.chance(1, 5) {
         let sp = special_seeds(rng);
         if sp.is_empty() { rng.next() } else { *rng.pick(&sp) }
@@ -793,6 +848,7 @@ fn gen_case(rng: &mut Rng, id: String, tier: &str, stats: &mut BTreeMap<String, 
         s_win: 0,
         s_ws: None,
         conn_budget: ISN_COUNT - 1,
+        bigwin,
         stats: BTreeMap::new(),
     };
     let max_steps = if tier == "thorough" { 220 } else { 110 };
